@@ -88,3 +88,9 @@ reg("C18",
     "Each case is compiled by real rustc against the repository's proc-macro and executed; failing to compile is a violation. Rejection of 0-, 2-, 3-, 4-field structs and enums is checked for each of Deref, DerefMut alone and both orders through both entry points.",
     "Bound: 132 executed cases + 112 rejection cases; field types u8, String, Box<[u8]>, Vec<T>, T, &'a T, Box<T> (T: ?Sized), [u8; N], (T, U); generics with inline bounds, defaults, const parameters and where-clauses.",
     "DESIGN.md 5/C18")
+
+reg("C20",
+    "bounded exhaustive enumeration of trait lists x shapes (incl. empty / single-variant enums) x generics options (type/const/lifetime parameters, inline bounds, defaults, where-clauses with Self incl. nested, hostile names H and 'a, ?Sized tail) x field types over the parameters x attribute flavours x entry points, plus every case of the C01/C06 comparison generators; each case the in-process expander accepts is compiled metadata-only by real rustc against the real proc-macro",
+    "Cases whose in-process expansion contains a compile_error! are set aside (that is derive_ex's own message); every other case is compiled by real rustc with warnings on: any error attributed to the case, and any warning whose span lies in derive_ex's output, is a violation. User-written pieces are well-typed by construction. Exhaustive within the bound.",
+    "Bound: quick ~10.5k cases (18 lists x 10 shapes x 15 generics options with the field-type variation on <T>; 6 comparison lists x 5 shapes x 8 attribute flavours x positions; 18 fixed Debug/Default flavours; C01/C06 quick generators); thorough adds all field-type variations and both entry points everywhere. Lints: rustc default warn level only (no clippy).",
+    "DESIGN.md 5/C20")
